@@ -267,7 +267,9 @@ Proof.
               [inv_tac Hs|];
               split; [apply (emit_rend_nobalt plan); assumption|]; cbn [dspec]; unfold BA; rewrite ?EBA; reflexivity ]).
     - (* FElse *)
-      unfold resolve_roe. rewrite Hroe. unfold block_alt_case. cbn [r_del]. rewrite FBA, Hd.
+      assert (ERoe : forall w, match r_stack st with [] => (st, w) | k :: _ => resolve_roe k st w end = (st, w)).
+      { intros w. destruct (r_stack st); [reflexivity|]. unfold resolve_roe. rewrite Hroe. reflexivity. }
+      rewrite ERoe. unfold block_alt_case. cbn [r_del]. rewrite FBA, Hd.
       destruct (acc_repl plan i MBlockAlt None) as [alt|] eqn:EBA; destruct del as [dd|].
       + eexists _, _, depth, (Some dd), retain, _. split; [reflexivity|]. split; [inv_tac Hs|].
         split; [apply (emit_rend_del plan); assumption|]. cbn [dspec]. unfold BA. rewrite ?EBA. reflexivity.
@@ -293,7 +295,7 @@ Proof.
         destruct del as [dd|].
         * destruct (Nat.eqb_spec dd d) as [->|Hne].
           -- cbn [set_del r_retain]. rewrite Hr. destruct retain; cbn [negb].
-             ++ unfold resolve_roe. cbn [r_roe set_retain set_del set_stack]. rewrite Hroe. cbn [r_ron]. rewrite Hron. cbn [ron_get].
+             ++ unfold resolve_roe. cbn [r_roe set_retain set_del set_stack]. rewrite Hroe. cbn [ron_get]. cbn [r_ron set_retain set_del set_stack]. rewrite Hron. cbn [ron_get].
                 rewrite flag_stage_plain by assumption.
                 eexists _, _, d, None, true, _. split; [reflexivity|]. split; [inv_tac Hs|].
                 split; [reflexivity|]. cbn [dspec]. rewrite Nat.eqb_refl.
@@ -302,7 +304,7 @@ Proof.
                 split; [apply (emit_rend_del plan); assumption|]. cbn [dspec]. rewrite Nat.eqb_refl. reflexivity.
           -- eexists _, _, d, (Some dd), retain, _. split; [reflexivity|]. split; [inv_tac Hs|].
              split; [apply (emit_rend_del plan); assumption|]. cbn [dspec]. destruct (Nat.eqb_spec dd d); [contradiction|]. reflexivity.
-        * unfold resolve_roe. cbn [r_roe set_stack]. rewrite Hroe. cbn [r_ron]. rewrite Hron. cbn [ron_get].
+        * unfold resolve_roe. cbn [r_roe set_stack]. rewrite Hroe. cbn [ron_get]. cbn [r_ron set_retain set_del set_stack]. rewrite Hron. cbn [ron_get].
           rewrite flag_stage_plain by assumption.
           eexists _, _, d, None, retain, _. split; [reflexivity|]. split; [inv_tac Hs|].
           split; [reflexivity|]. cbn [dspec].
